@@ -619,6 +619,7 @@ func schedEngine(a Args) {
 			race = true
 		}
 		for rep := 0; rep < reps; rep++ {
+			mon.Beat()
 			v := schedVariantFor(idx+rep+int(a.Seed)*7, x.N, x.Ctx)
 			r := runScript(sc, v, race)
 			if r.skipped {
